@@ -1031,10 +1031,28 @@ pub fn edge_package(k: u64) -> Option<Vec<(String, Vec<u8>)>> {
             sheet_tag = "<sheet name=\"a\nb\" sheetId=\"1\" r:id=\"rId1\"/>".to_string();
             "<row r=\"1\"><c r=\"A1\"><v>1</v></c></row>".to_string()
         }
+        // t="b" with the xsd:boolean words (before fix_1: `true` was loaded as FALSE); replayed witness of C03_cell_bool
+        6 => "<row r=\"1\"><c r=\"A1\" t=\"b\"><v>true</v></c><c r=\"B1\" t=\"b\"><v>false</v></c><c r=\"C1\" t=\"b\"><v>1</v></c><c r=\"D1\" t=\"b\"><v>0</v></c></row>".to_string(),
+        // a string item with both a plain t and runs, inline and shared (witness of C03_cell_t_and_runs_fails)
+        7 => {
+            sst = "<si><t>a</t><r><t>b</t></r></si>".to_string();
+            "<row r=\"1\"><c r=\"A1\" t=\"inlineStr\"><is><t>a</t><r><t>b</t></r></is></c><c r=\"B1\" t=\"s\"><v>0</v></c></row>".to_string()
+        }
+        // an empty-element string item occupies its index (before fix_2 the reader skipped it: index 1 panicked)
+        8 => {
+            sst = "<si/><si><t>x</t></si>".to_string();
+            "<row r=\"1\"><c r=\"A1\" t=\"s\"><v>1</v></c></row>".to_string()
+        }
+        // blanks at the ends of texts: kept in t="str", in <f>, in the shared-strings part; trimmed in an inline
+        // <t> without xml:space (witness of C03_cell_edge_blanks_fails)
+        9 => {
+            sst = "<si><t> a </t></si>".to_string();
+            "<row r=\"1\"><c r=\"A1\" t=\"str\"><v> x </v></c><c r=\"B1\"><f> A1 </f><v>1</v></c><c r=\"C1\" t=\"inlineStr\"><is><t> a </t></is></c><c r=\"D1\" t=\"s\"><v>0</v></c></row>".to_string()
+        }
         // shared-formula children whose relative references land EXACTLY on the last row / last column of the grid
         // (A1048576, XFD1): still inside; and, for the last child, one step beyond (-> #REF!)
-        6 => "<row r=\"1\"><c r=\"A1\"><f t=\"shared\" ref=\"A1:B3\" si=\"0\">SUM(A3:A1048574)+XFC1+$A1048574+XFC$1</f><v>1</v></c><c r=\"B1\"><f t=\"shared\" si=\"0\"/><v>2</v></c></row><row r=\"2\"><c r=\"A2\"><f t=\"shared\" si=\"0\"/><v>3</v></c></row><row r=\"3\"><c r=\"A3\"><f t=\"shared\" si=\"0\"/><v>4</v></c><c r=\"B3\"><f t=\"shared\" si=\"0\"/><v>5</v></c></row>".to_string(),
-        7 => "<row r=\"1\"><c r=\"A1\"><f t=\"shared\" ref=\"A1:C4\" si=\"0\">SUM(A3:A1048574)+XFC1</f><v>1</v></c></row><row r=\"4\"><c r=\"A4\"><f t=\"shared\" si=\"0\"/><v>3</v></c><c r=\"C4\"><f t=\"shared\" si=\"0\"/><v>4</v></c></row>".to_string(),
+        10 => "<row r=\"1\"><c r=\"A1\"><f t=\"shared\" ref=\"A1:B3\" si=\"0\">SUM(A3:A1048574)+XFC1+$A1048574+XFC$1</f><v>1</v></c><c r=\"B1\"><f t=\"shared\" si=\"0\"/><v>2</v></c></row><row r=\"2\"><c r=\"A2\"><f t=\"shared\" si=\"0\"/><v>3</v></c></row><row r=\"3\"><c r=\"A3\"><f t=\"shared\" si=\"0\"/><v>4</v></c><c r=\"B3\"><f t=\"shared\" si=\"0\"/><v>5</v></c></row>".to_string(),
+        11 => "<row r=\"1\"><c r=\"A1\"><f t=\"shared\" ref=\"A1:C4\" si=\"0\">SUM(A3:A1048574)+XFC1</f><v>1</v></c></row><row r=\"4\"><c r=\"A4\"><f t=\"shared\" si=\"0\"/><v>3</v></c><c r=\"C4\"><f t=\"shared\" si=\"0\"/><v>4</v></c></row>".to_string(),
         _ => return None,
     };
     let wb = format!("{}<workbook xmlns=\"{}\" xmlns:r=\"{}\"><sheets>{}</sheets></workbook>", DECL, NS_MAIN, NS_R, sheet_tag);
@@ -1051,7 +1069,7 @@ pub fn edge_package(k: u64) -> Option<Vec<(String, Vec<u8>)>> {
     ])
 }
 
-pub const N_EDGE: u64 = 7;
+pub const N_EDGE: u64 = 11;
 
 pub fn zip_parts(parts: &[(String, Vec<u8>)], stored: bool) -> Vec<u8> {
     let mut buf: Vec<u8> = Vec::new();
